@@ -36,6 +36,10 @@ FAMILIES = {
     "M": [("s%02d" % (i % 12), "a", 1.0 + i // 12, "b", 1.0, "u%d" % (i % 3)) for i in range(14)],
     # 120 samples with one experiment each: more than a hundred generated plates ("..._100" next to "..._10")
     "M2": [("s%03d" % i, "a", 1.0, "b", 1.0, "u%d" % (i % 3)) for i in range(120)],
+    # technical replicates: the same condition several times on one unobserved plate (and once more on another plate)
+    "R": [("s1", "a", 1.0, "b", 1.0, "u1"), ("s1", "a", 1.0, "b", 1.0, "u1"), ("s1", "a", 1.0, "", 0.0, "u1"),
+          ("s1", "a", 1.0, "", 0.0, "u1"), ("s2", "a", 1.0, "b", 1.0, "u2"), ("s1", "a", 1.0, "b", 1.0, "u2"),
+          ("s2", "c", 1.0, "b", 1.0, "obs")],
     # like A but with a vehicle-only (all-control) experiment and a zero-dose treatment among the unobserved rows
     "E": [("s1", "a", 1.0, "b", 1.0, "obs"), ("s1", "", 0.0, "", 0.0, "u1"), ("s1", "b", 1.0, "c", 1.0, "u1"),
           ("s2", "a", 1.0, "b", 1.0, "u2"), ("s2", "c", 0.0, "a", 1.0, "u2"), ("s1", "a", 1.0, "c", 1.0, "u3")],
@@ -82,6 +86,10 @@ def _random_condition(r):
 
 
 def family(fam):
+    if fam not in FAMILIES and fam.startswith("L"):
+        # one sample with n experiments on two unobserved plates (plus a two-experiment sample)
+        n = int(fam[1:])
+        FAMILIES[fam] = [("s1", "a", 1.0 + i, "b", 1.0, "u%d" % (i % 2)) for i in range(n)] + [("s2", "a", 1.0, "b", 1.0, "u2"), ("s2", "a", 2.0, "b", 1.0, "u2")]
     if fam not in FAMILIES and fam.startswith("G"):
         FAMILIES[fam] = generated_family(int(fam[1:]))
     return FAMILIES[fam]
